@@ -7,6 +7,7 @@ import numpy as np
 
 import drvlib as D
 from incomplete_cooperative.generators import GENERATORS
+from incomplete_cooperative.normalize import normalize_game
 
 SAM_PREFIXES = ("xos", "xs", "oxs", "k_budget", "covg")
 
@@ -34,8 +35,18 @@ def main():
                      "same_bits": 0, "tol": 2, "sam_prefix": int(name.startswith(SAM_PREFIXES))}
                 try:
                     g1 = GENERATORS[name](n, np.random.default_rng(seed))
+                    v1 = np.array(g1.get_values(), copy=True)
+                    # what the caller does with a returned game must not leak into later calls: the first result is changed in place
+                    try:
+                        if s % 2 == 0:
+                            normalize_game(g1)
+                        elif hasattr(g1, "set_values"):
+                            g1.set_values(np.zeros(2 ** n) + 7.0)
+                        else:
+                            g1._graph_matrix *= 0.0
+                    except Exception:  # noqa: BLE001
+                        pass
                     g2 = GENERATORS[name](n, np.random.default_rng(seed))
-                    v1 = np.asarray(g1.get_values())
                     v2 = np.asarray(g2.get_values())
                     mx = max(1e-9, float(np.max(np.abs(v1))), float(np.max(np.abs(v2))))
                     grid = 2.0 ** 16 / D.pow2_at_least(mx)
